@@ -38,6 +38,8 @@ func implC03(line string) string {
 			return parseCtxText(astx.UnHex(f[3][1:]))
 		}
 		return parseExprText(astx.UnHex(f[3][1:]))
+	case "cmt":
+		return implCmt(f)
 	case "asi":
 		return implAsi(f)
 	case "noin":
@@ -204,6 +206,7 @@ func genC03(c *h.Ctx) {
 	genAsiRe(c)
 	genNoIn(c)
 	genCtx(c)
+	genCmt(c)
 	genObj(c)
 	genPunct(c)
 }
